@@ -6,6 +6,8 @@
 package c14
 
 import (
+	"bytes"
+	"math/big"
 	"crypto/cipher"
 	"fmt"
 	"strings"
@@ -192,7 +194,17 @@ func Run(c *vf.Check) {
 			jobs = append(jobs, job{"bn256.G1", t})
 		}
 	}
-	vf.Parallel(len(jobs), func(i int) { runTree(c, jobs[i].gn, jobs[i].t) })
+	vf.Parallel(len(jobs), func(i int) { runTree(c, jobs[i].gn, jobs[i].t, false) })
+	// the same with the secrets 0, 1, q-1 (a public point may be the identity), every 4th tree on Ed25519
+	var bjobs []job
+	for i, t := range trees {
+		if i%4 == 0 {
+			bjobs = append(bjobs, job{"ed25519", t})
+		}
+	}
+	vf.Parallel(len(bjobs), func(i int) { runTree(c, bjobs[i].gn, bjobs[i].t, true) })
+	nested := nestedJobs(c)
+	vf.Parallel(len(nested), func(i int) { nested[i]() })
 	den := deniableJobs(c)
 	vf.Parallel(len(den), func(i int) { den[i]() })
 	c.Finish(fmt.Sprintf("engine E over a predicate grammar: %d predicate trees = shapes {Rep1, Rep2, And of up to 2 Reps, Or of up to 3 branches of Rep or And(Rep,Rep)} (thorough: Rep3, And of 3, 4 branches) x every sharing pattern of 3 scalar names over the term slots x every sharing pattern of 3 base points (restricted-growth strings, i.e. all assignments up to renaming), on Ed25519 (all), P-256 (every 9th), bn256.G1 (every 13th). ", len(trees))+
@@ -208,12 +220,18 @@ type world struct {
 	base []kyber.Point
 }
 
-func newWorld(gn string) *world {
+func newWorld(gn string) *world { return newWorldSecrets(gn, false) }
+
+// newWorldSecrets: with boundary, the three secrets are 0, 1 and q-1 (public points may then be the identity).
+func newWorldSecrets(gn string, boundary bool) *world {
 	g := groups.ByName(gn)
 	s := baseSuite(gn)
 	w := &world{s: s, g: g}
 	for i := 0; i < 3; i++ {
 		v := alpha.Rand(fmt.Sprintf("c14-sec-%d", i), g.Order)
+		if boundary {
+			v = []*big.Int{big.NewInt(0), big.NewInt(1), new(big.Int).Sub(g.Order, big.NewInt(1))}[i]
+		}
 		w.sec = append(w.sec, alpha.ToScalar(s.Scalar(), v, g.Order))
 	}
 	w.base = []kyber.Point{s.Point().Base(), s.Point().Pick(alpha.Stream("c14-H")), s.Point().Pick(alpha.Stream("c14-K"))}
@@ -246,9 +264,12 @@ func (w *world) statement(b built, truth []bool) (map[string]kyber.Scalar, map[s
 	return sv, pv
 }
 
-func runTree(c *vf.Check, gn string, t tree) {
+func runTree(c *vf.Check, gn string, t tree, boundary bool) {
 	pk := "C14/" + gn
-	w := newWorld(gn)
+	w := newWorldSecrets(gn, boundary)
+	if boundary {
+		gn += " secrets{0,1,q-1}"
+	}
 	b := t.build()
 	nb := len(t.sh)
 	// rebuild (choice, truth) pairs explicitly
@@ -292,8 +313,23 @@ func runTree(c *vf.Check, gn string, t tree) {
 				x.Failf(pk+"/prove-failed", "%s: HashProve fails on a true statement: %v", id, err)
 				return
 			}
+			pvEnc := map[string][]byte{}
+			for k, v := range pv {
+				pvEnc[k], _ = v.MarshalBinary()
+			}
 			if err := proof.HashVerify(suite, "c14-proto", b.pred.Verifier(suite, pv), prf); err != nil {
 				x.Failf(pk+"/honest-rejected", "%s: honest proof rejected: %v", id, err)
+				return
+			}
+			// verification leaves the caller's public points as they were and can be repeated
+			for k, v := range pv {
+				if e, _ := v.MarshalBinary(); !bytes.Equal(e, pvEnc[k]) {
+					x.Failf(pk+"/verify-clobbers-points", "%s: verification changed the caller's public point %s", id, k)
+					return
+				}
+			}
+			if err := proof.HashVerify(suite, "c14-proto", b.pred.Verifier(suite, pv), prf); err != nil {
+				x.Failf(pk+"/honest-rejected", "%s: the same proof is rejected when verified a second time: %v", id, err)
 				return
 			}
 			// a second proof from fresh prover objects verifies too; so does a second run of the same Prover value
@@ -365,12 +401,20 @@ func runTree(c *vf.Check, gn string, t tree) {
 					break
 				}
 			}
-			// other protocol name
-			if verify(prf, pv, b.pred, "c14-other") == nil {
+			// other protocol name. The protocol name enters only through the challenge c, and the verification
+			// equation V = sum r_i B_i + c P does not depend on c when the public point P is the identity (a secret
+			// is 0, or terms cancel): such a proof is valid under every name by construction, so it is not judged.
+			degenerate := false
+			for name, pt := range pv {
+				if strings.HasPrefix(name, "P") && pt.Equal(w.s.Point().Null()) {
+					degenerate = true
+				}
+			}
+			if !degenerate && verify(prf, pv, b.pred, "c14-other") == nil {
 				x.Failf(pk+"/other-protocol-accepted", "%s: proof accepted under another protocol name", id)
 			}
 			// long protocol names (e.g. a message used as the name) that differ only far into the string
-			if len(b.reps) <= 2 {
+			if len(b.reps) <= 2 && !degenerate {
 				long := strings.Repeat("protocol name of 300 characters ", 10)[:300]
 				lp, err := proof.HashProve(suite, long, b.pred.Prover(suite, sv, pv, choice))
 				if err != nil {
